@@ -62,12 +62,16 @@ async fn client_main(ctx: Ctx, io: PipeEnd, sc: Rc<Scenario>, ctl: ConnCtlRef, s
     };
     sim::spawn("client-conn", TaskKind::Conn, client_conn_task(ctx.clone(), conn, ctl.clone(), hooks));
     let done = Rc::new(RefCell::new(0u32));
+    let pooled = sc.ending.is_none() && sc.n_clones > 0 && sc.seed % 2 == 0;
     for c in 0..sc.n_clones {
         let specs: Vec<StreamSpec> = sc.streams.iter().filter(|s| s.via_clone == c).cloned().collect();
-        sim::spawn(format!("client-req-{}", c), TaskKind::App, client_requester(ctx.clone(), sr.clone(), specs, done.clone()));
+        // a kept connection (second wave on the same connection) is kept through the handle of the first
+        // requester, which made - and at a concurrency limit queued - requests itself
+        let give_back = if keep && pooled && c == 0 { Some(keeper.clone()) } else { None };
+        sim::spawn(format!("client-req-{}", c), TaskKind::App, client_requester(ctx.clone(), sr.clone(), specs, done.clone(), give_back));
     }
     sim::spawn("controller", TaskKind::App, controller(sc.conn_ops.clone(), ctl.clone(), server_ctl));
-    if keep {
+    if keep && !pooled {
         *keeper.borrow_mut() = Some(sr);
     } else {
         drop(sr);
@@ -242,7 +246,7 @@ pub fn run_scenario(sc: &Scenario) -> Outcome {
                     probe.client_cancel_after = None;
                     stats.inc("probe_requests");
                     let done = Rc::new(RefCell::new(0u32));
-                    sim::spawn("client-probe", TaskKind::App, client_requester(cctx.clone(), sr, vec![probe], done));
+                    sim::spawn("client-probe", TaskKind::App, client_requester(cctx.clone(), sr, vec![probe], done, None));
                 }
                 // a ping on each side: through the connection task while it lives, directly on the ping handle once
                 // the connection task has ended (the handle outlives the connection: "subsequent operations ... ping")
@@ -303,7 +307,7 @@ pub fn run_scenario(sc: &Scenario) -> Outcome {
                 // second wave on the same connection (recycled slab slots)
                 let sr = keeper.borrow().as_ref().unwrap().clone();
                 let done = Rc::new(RefCell::new(0u32));
-                sim::spawn("client-req-wave2", TaskKind::App, client_requester(cctx.clone(), sr, sc.second_wave.clone(), done));
+                sim::spawn("client-req-wave2", TaskKind::App, client_requester(cctx.clone(), sr, sc.second_wave.clone(), done, None));
                 end = sim::run(sc.max_steps);
                 if end == RunEnd::Quiescent && !client_ctl.borrow().done && !server_ctl.borrow().done && pending_ops_of(true) == 0 && all_app_tasks_done() {
                     send_cmd(&client_ctl, ConnCmd::Op(ConnOpKind::Nop));
